@@ -3501,6 +3501,57 @@ Q(name="e2_handle_packet_unprotected_slice", props=["C04"], func=r"connection/mo
   replay=("conn_unprotected_packet_native", lambda m: [dict(mode=k) for k in range(5)]))
 
 
+# ------------------------------------------------------------------ C07 / C15: only datagrams from the current path's own address raise its send budget
+def hec_post(c, p):
+    st = p.p.state
+    calls = st.calls
+    dec = [i for i, x in enumerate(calls) if re.search(r"Connection::handle_decode$", x[0])]
+    if not dec:
+        return "true"
+    k = _conn_path_field(c, "total_recvd")
+    eqs = [i for i, x in enumerate(calls) if i > dec[0] and re.search(r"SocketAddr as PartialEq>::(eq|ne)$", x[0])]
+    co = [i for i, x in enumerate(calls) if i > dec[0] and re.search(r"Connection::handle_coalesced$", x[0])]
+    end = _Snap(st, calls[co[0]][3]) if co else st
+    after = c.ex.read_key(end, k, BV64).t
+    # handle_decode is opaque: what it leaves in total_recvd is a fresh symbol; anything else means it was raised afterwards
+    changed = not re.match(r"^\|[^|]*\|$", after)
+    if not changed:
+        return "true"
+    if not eqs:
+        return "false"
+    e = calls[eqs[0]]
+    return e[2] if e[0].endswith("eq") else not_(e[2])
+
+
+Q(name="e2_handle_event_credits_own_path_only", props=["C07", "C15"], func=r"connection/mod\.rs:\d+:1: \d+:16>::handle_event$",
+  pure=[r"PartialEq>::(eq|ne)", r"remote_may_migrate", r"anti_amplification_blocked", r"BytesMut::len", r"PartialDecode::len"],
+  allowed_panics=r"attempt to compute", functions=["Connection::handle_event (Datagram arm)"],
+  pre=he_pre, post=hec_post,
+  bounds="every datagram event, every effect of handling its first packet (handle_decode opaque - it may or may not have migrated the connection): afterwards the source address is compared with the address of the path the connection is on NOW, and total_recvd of that path is raised only if they are equal; up to the point where coalesced packets are handed on",
+  replay=("conn_foreign_datagram_credit_native", lambda m: [dict(mode=k) for k in range(4)]))
+
+
+def hcc_post(c, p):
+    st = p.p.state
+    calls = st.calls
+    k = "*_1.%d.%d" % (c.field("connection/mod.rs", "Connection", "path"), c.field("connection/paths.rs", "PathData", "total_recvd"))
+    first = [i for i, x in enumerate(calls) if re.search(r"PartialDecode::new$|Connection::handle_decode$", x[0])]
+    end = _Snap(st, calls[first[0]][3]) if first and calls[first[0]][3] is not None else st
+    after = c.ex.read_key(end, k, BV64).t
+    eqs = [x for i, x in enumerate(calls) if (not first or i < first[0]) and re.search(r"SocketAddr as PartialEq>::(eq|ne)$", x[0])]
+    if not eqs:
+        return eq(after, c.inp(k, BV64))
+    same = eqs[0][2] if eqs[0][0].endswith("eq") else not_(eqs[0][2])
+    return or_(same, eq(after, c.inp(k, BV64)))
+
+
+Q(name="e2_handle_coalesced_credits_own_path_only", props=["C07", "C15"], func=r"connection/mod\.rs:\d+:1: \d+:16>::handle_coalesced$",
+  pure=[r"PartialEq>::(eq|ne)", r"BytesMut::len"], check_stop=True, loop_is_stop=True, allowed_panics=r".", ignore_untranslatable=r".",
+  functions=["Connection::handle_coalesced (up to its loop over the coalesced packets)"], pre=lambda c: "true", post=hcc_post,
+  bounds="every state, every source address: before the coalesced packets are decoded, total_recvd of the current path is raised only if the datagram came from that path's address",
+  replay=("conn_foreign_datagram_credit_native", lambda m: [dict(mode=k) for k in range(4)]))
+
+
 # ================================================================== the `quinn` crate (async layer): MIR dumped from its own workspace, candidates replayed by tests over loopback sockets
 _PROTO_ENUMS = {}
 
